@@ -1,16 +1,62 @@
 import PallasVerif.Stream
-/-! stream `valtotal` (C33). The scenarios (mutated fixtures, synthesized extremes, Byron witness corners; see
-    harness/src/streams/valtotal.rs) are not modelled as a whole; this stream only states the outcome class the
-    property demands of `validate_txs` for every decodable scenario — `ok total` (accepted or rejected with a
-    `ValidationError`, never a panic). What is proved about the modelled rules is in `Props/C33.lean`; the rules
-    themselves are compared verdict-by-verdict in the streams of C34–C37 and C39. -/
+import PallasVerif.Streams.Value
+import PallasVerif.Model.PhaseOneArith
+/-! stream `valtotal` (C33). The whole-transaction scenarios (`mt`, `sv`, `fc`, `bw`: mutated fixtures, synthesized extremes,
+    fixtures with a rewritten collateral section, Byron witness corners; see harness/src/streams/valtotal.rs) are not
+    modelled as a whole; for them this stream only states the outcome class the property demands of `validate_txs` for
+    every decodable scenario — `ok total` (accepted or rejected with a `ValidationError`, never a panic).
+    Modelled here and compared answer by answer with the code:
+      `ld <era> <value> <value>`  — `lovelace_diff_or_fail` (babbage) / `conway_lovelace_diff_or_fail` (conway)
+      `cb <era> <legacy return 0|1> F <fee> P <percentage> C <n> <value>^n R <value|-> T <total|->`
+                                   — `check_collaterals_assets` of alonzo / babbage / conway
+    What is proved about the modelled rules is in `Props/C33.lean`. -/
 namespace PallasVerif.Streams.ValTotal
-open PallasVerif
+open PallasVerif PallasVerif.PhaseOneArith
+
+def showDiff : Value.R Int → String
+  | .ok n => s!"ok {n}"
+  | .err => "err"
+  | .panic => "panic"
+
+def showColl : CollRes → String
+  | .ok => "ok"
+  | .negativeValue => "err NegativeValue"
+  | .nonLovelace => "err NonLovelaceCollateral"
+  | .minLovelace => "err CollateralMinLovelace"
+  | .annotation => "err CollateralAnnotation"
+  | .panic => "panic"
+
+def runLd : List String → String
+  | [a, b] =>
+    match Streams.Value.value? a, Streams.Value.value? b with
+    | some x, some y => showDiff (lovelaceDiffOrFail x y)
+    | _, _ => "bad-op"
+  | _ => "bad-op"
+
+def optNat? (s : String) : Option (Option Nat) := if s = "-" then some none else (Tok.nat? s).map some
+def optValue? (s : String) : Option (Option Value.Value) := if s = "-" then some none else (Streams.Value.value? s).map some
+
+def runCb (era : String) : List String → String
+  | legacy :: "F" :: fee :: "P" :: pct :: "C" :: n :: rest =>
+    match (Tok.nat? n).bind (fun k => Streams.Value.takeValues k rest) with
+    | some (ins, ["R", r, "T", t]) =>
+      match Tok.nat? fee, Tok.nat? pct, optValue? r, optNat? t with
+      | some f, some p, some ret, some total =>
+        if era = "alonzo" then showColl (collateralAlonzo f p ins)
+        else if era = "babbage" then showColl (collateralBalance false (legacy = "1") ins ret f p total)
+        else if era = "conway" then showColl (collateralBalance true (legacy = "1") (if legacy = "1" then ins.map conwayOfLegacy else ins) ret f p total)
+        else "bad-op"
+      | _, _, _, _ => "bad-op"
+    | _ => "bad-op"
+  | _ => "bad-op"
 
 def step (_ : Unit) : List String → Unit × String
   | "mt" :: _ => ((), "ok total")
   | "sv" :: _ => ((), "ok total")
+  | "fc" :: _ => ((), "ok total")
   | "bw" :: _ => ((), "ok total")
+  | "ld" :: _ :: rest => ((), runLd rest)
+  | "cb" :: era :: rest => ((), runCb era rest)
   | _ => ((), "bad-op")
 
 def stream : Stream := { name := "valtotal", σ := Unit, init := (), step := step }
